@@ -96,3 +96,18 @@ package parser
 //@ ensures[line]   pos.Line >= 0 && pos.Column >= 0 && (pos.Line > 0 ==> pos.Column >= 1)
 //@ modifies s.LastFile
 //@ property C16
+
+// AddFile keeps the file ranges of a set disjoint and ordered: the new file
+// starts at or after the set's Base and the set's Base moves past its
+// end-of-file position.
+//@ func (*SourceFileSet).AddFile
+//@ params s filename base size
+//@ results f
+//@ requires validFileSet(s) && s.Base >= 1 && s.Base < 1<<40 && size >= 0 && size < 1<<40 && (base < 0 || (base >= s.Base && base < 1<<40))
+//@ requires forall k int :: 0 <= k && k < len(s.Files) ==> s.Files[k].Base+s.Files[k].Size < s.Base
+//@ ensures[inv]    validFileSet(s)
+//@ ensures[below]  forall k int :: 0 <= k && k < len(s.Files) ==> s.Files[k].Base+s.Files[k].Size < s.Base
+//@ ensures[file]   f != nil && validFile(f) && f.Size == size && len(s.Files) == old(len(s.Files))+1 && s.Files[len(s.Files)-1] == f
+//@ modifies s.Base, s.Files, s.Files[*], s.LastFile
+//@ split paths
+//@ property C16
